@@ -72,6 +72,12 @@ MUTANTS = [
     ("aldy/sam.py", "                muts[mut].append((bin_quality(mq), bin_quality(q)))\n                prev_q = q\n                dump_arr.append(mut)",
      "                muts[mut].append((bin_quality(mq), bin_quality(q)))\n                norm[start].append((bin_quality(mq), bin_quality(q)))\n                prev_q = q\n                dump_arr.append(mut)",
      "aldy.sam.Sample._parse_read@insertion-op", "no-reference-observation"),
+    ("aldy/sam.py", '                for i in range(size):\n                    muts[start + i, "-"].append((bin_quality(mq), bin_quality(prev_q)))',
+     '                for i in range(size - 1):\n                    muts[start + i, "-"].append((bin_quality(mq), bin_quality(prev_q)))',
+     "aldy.sam.Sample._parse_read@deletion-op", "every-deleted-base-counted-once"),
+    ("aldy/sam.py", '                    muts[start + i, "-"].append((bin_quality(mq), bin_quality(prev_q)))',
+     '                    muts[start + i // 2, "-"].append((bin_quality(mq), bin_quality(prev_q)))',
+     "aldy.sam.Sample._parse_read@deletion-op", "unique-appender"),
 ]
 SLOW = [
     ("aldy/major.py", 'name=f"CSAT_{cnf}"', 'name=f"CSAT_{cnf}") if False else model.addConstr(expr <= cnt + 1, name=f"CSAT_{cnf}"',
